@@ -8,7 +8,7 @@ ID = "C12"
 LEVEL = "exploration"
 BUDGET = {"quick": 55, "thorough": 900}
 QUICK_CASES = 1000  # generator items in the quick tier (fixed amount of work; BUDGET is then only a safety cap)
-FLOOR = {"quick": 300, "thorough": 2000}
+FLOOR = {"quick": 300, "thorough": 300}  # conclusive cases below which a run is inconclusive (the thorough tier is time-budgeted: same floor)
 TIMEOUT = 120
 REQUIRED_OBS = ["steps", "has_service_checks", "calls_made", "calls_ran_expected_generation", "not_found_as_expected", "responses_checked", "outgoing_calls_checked", "redefinitions", "rejected_declarations", "overlapping_call_pairs", "late_imports"]
 RULE = (
